@@ -546,3 +546,11 @@ Theorem c06_code_call_try_response : forall c input,
   = lift_try (call_try_response c input).
 Proof. exact gen_call_try_response_eq. Qed.
 Print Assumptions c06_code_call_try_response.
+
+(* ================================================================== the body mode reported to the caller (translated from the source) *)
+(** [Call::body_mode] (the reader's mode; Chunked before a response was seen) is translated on every run and proved equal to the
+    model's [call_body_mode] (proofs/Gen2_equiv_small_mode.v). *)
+From Hoot.proofs Require Import Gen2_equiv_small_mode.
+Theorem c06_code_call_body_mode : forall c, gen_call_body_mode (c_reader c) = call_body_mode c.
+Proof. exact gen_call_body_mode_eq. Qed.
+Print Assumptions c06_code_call_body_mode.
